@@ -7,6 +7,8 @@ import sys
 
 HERE = os.path.dirname(os.path.abspath(__file__))
 sys.path.insert(0, HERE)
+if os.environ.get("IOOS_QC_REPO"):
+    sys.path.insert(0, os.environ["IOOS_QC_REPO"])
 
 
 def main():
